@@ -2,6 +2,8 @@ package p_isaaca
 
 import (
 	"fmt"
+	"runtime"
+	"runtime/debug"
 	"strings"
 	"sync"
 	"sync/atomic"
@@ -15,6 +17,7 @@ import (
 	"github.com/spikeekips/mitum/util/valuehash"
 	"pgregory.net/rapid"
 	"verif/internal/ev"
+	"verif/internal/gen"
 )
 
 // ---- model of a position and the safety relation, written from the property statement only
@@ -130,6 +133,8 @@ const (
 	c06EvFill
 	c06EvShadowed
 	c06EvBallotAccepted
+	c06EvEarlierSCBallot // a suffrage-confirm ballot of an earlier round/stage was accepted while the position is not a majority
+	c06EvCounted         // the position moved because the box counted ballots (not by SetLastPoint*)
 )
 
 func c06ClassifyAccepted(last, cand c06Pos) uint {
@@ -433,7 +438,7 @@ func c06BoxBallot(t ev.TB, r *ev.Rec, box *isaacstates.Ballotbox, cand c06Pos, h
 
 type c06Counters struct {
 	n, nt  int64
-	byEv   [8]int64
+	byEv   [10]int64
 	sample []map[string]any
 }
 
@@ -451,8 +456,9 @@ func (c *c06Counters) add(evs uint) {
 	}
 }
 
-var c06EvNames = [8]string{"accepted-backward-sc", "same-point-majority-replaces", "same-point-sc-result", "lower-height-rejected",
-	"retake-after-backward(flagged)", "lvps-fill-missing", "lvps-accepted-but-cap-unchanged", "ballot-accepted"}
+var c06EvNames = [10]string{"accepted-backward-sc", "same-point-majority-replaces", "same-point-sc-result", "lower-height-rejected",
+	"retake-after-backward(flagged)", "lvps-fill-missing", "lvps-accepted-but-cap-unchanged", "ballot-accepted",
+	"sc-ballot-of-earlier-round-accepted", "position-moved-by-counting"}
 
 func (c *c06Counters) flush(r *ev.Rec, part string) {
 	r.CaseN(c.n, c.nt, "part:"+part)
@@ -791,6 +797,590 @@ func c06LvpsRoundChanges(t ev.TB, r *ev.Rec, prefixes [][]c06Pos, ps []c06Pos, a
 	}
 }
 
+// ---- holder 1 once more, driven the way launch drives it: real signed ballots of a 4-node suffrage through Vote and
+// Count, so that the position is moved by the box itself (countVoterecords) and not only by SetLastPoint*
+
+const (
+	c06WN      = 4 // suffrage size; threshold 67 => 3 votes; node 3 is the expel target, node 0 the box's local node
+	c06WExpel  = 3
+	c06WSettle = 90 * time.Second
+)
+
+var c06WTh = base.Threshold(67)
+
+// c06Ballot describes one ballot. Kind: init (INIT ballot, fact variant V, carrying the ACCEPT voteproof that ended the
+// previous height / round), initI (round > 0: carrying the INIT draw of the previous round), initExpel (with an expel
+// operation), sc (suffrage-confirm INIT ballot carrying the plain INIT majority voteproof with expels of its own
+// point), accept (fact variant V, carrying the INIT majority voteproof of its point), acceptExpel.
+type c06Ballot struct {
+	Kind string
+	H    int64
+	R    uint64
+	V    int
+	Node int
+}
+
+func (d c06Ballot) String() string {
+	s := fmt.Sprintf("%s(%d,%d)n%d", d.Kind, d.H, d.R, d.Node)
+	if d.V != 0 {
+		s += fmt.Sprintf("v%d", d.V)
+	}
+
+	return s
+}
+
+func (d c06Ballot) pos() c06Pos {
+	p := c06Pos{H: d.H, R: d.R, St: base.StageINIT, SC: d.Kind == "sc"}
+	if strings.HasPrefix(d.Kind, "accept") {
+		p.St = base.StageACCEPT
+	}
+
+	return p
+}
+
+func c06WLocals() []base.LocalNode { return gen.Locals(c06WN) }
+
+func c06WLive() []base.LocalNode { return gen.Locals(c06WN)[:c06WExpel] }
+
+func c06WBlock(h int64) util.Hash { return gen.H(fmt.Sprintf("c06-block-%d", h)) }
+
+func c06WExpels(h int64) []base.SuffrageExpelOperation {
+	return []base.SuffrageExpelOperation{gen.Expel(gen.Local(c06WExpel).Address(), base.Height(h), base.Height(h)+1, c06WLive())}
+}
+
+func c06WInitFact(h int64, r uint64, v int, expelfacts []util.Hash) isaac.INITBallotFact {
+	return isaac.NewINITBallotFact(base.RawPoint(h, r), c06WBlock(h-1), gen.H(fmt.Sprintf("c06-prop-%d-%d-%d", h, r, v)), expelfacts)
+}
+
+func c06WSCFact(h int64, r uint64) isaac.SuffrageConfirmBallotFact {
+	return isaac.NewSuffrageConfirmBallotFact(base.RawPoint(h, r), c06WBlock(h-1), gen.H(fmt.Sprintf("c06-prop-%d-%d-0", h, r)),
+		gen.ExpelFactHashes(c06WExpels(h)))
+}
+
+func c06WAcceptFact(h int64, r uint64, v int, expelfacts []util.Hash) isaac.ACCEPTBallotFact {
+	nb := c06WBlock(h)
+	if v != 0 {
+		nb = gen.H(fmt.Sprintf("c06-block-%d-x%d", h, v))
+	}
+
+	return isaac.NewACCEPTBallotFact(base.RawPoint(h, r), gen.H(fmt.Sprintf("c06-prop-%d-%d-0", h, r)), nb, expelfacts)
+}
+
+var (
+	c06WMu      sync.Mutex
+	c06WVps     = map[string]base.Voteproof{}
+	c06WBallots = map[c06Ballot]base.Ballot{} // nil: not constructible / not valid
+	c06WInvalid atomic.Int64
+)
+
+// c06WVP: the real voteproofs of the world. kind: Amaj, Adraw, Idraw, Imaj, Iexpel (INIT majority with expels), Isc.
+func c06WVP(kind string, h int64, r uint64) base.Voteproof {
+	k := fmt.Sprintf("%s/%d/%d", kind, h, r)
+
+	c06WMu.Lock()
+	defer c06WMu.Unlock()
+
+	if vp, found := c06WVps[k]; found {
+		return vp
+	}
+
+	var vp base.Voteproof
+
+	all := c06WLocals()
+
+	switch kind {
+	case "Amaj":
+		vp = gen.FullACCEPTVoteproof(c06WAcceptFact(h, r, 0, nil), all, c06WTh, nil)
+	case "Adraw":
+		sfs := make([]base.BallotSignFact, len(all))
+		for i := range all {
+			sfs[i] = gen.SignACCEPT(c06WAcceptFact(h, r, 100+i, nil), all[i])
+		}
+
+		vp = gen.ACCEPTVoteproof(base.RawPoint(h, r), nil, sfs, c06WTh, nil)
+	case "Idraw":
+		sfs := make([]base.BallotSignFact, len(all))
+		for i := range all {
+			sfs[i] = gen.SignINIT(c06WInitFact(h, r, 100+i, nil), all[i])
+		}
+
+		vp = gen.INITVoteproof(base.RawPoint(h, r), nil, sfs, c06WTh, nil)
+	case "Imaj":
+		vp = gen.FullINITVoteproof(c06WInitFact(h, r, 0, nil), all, c06WTh, nil)
+	case "Iexpel":
+		ex := c06WExpels(h)
+		vp = gen.FullINITVoteproof(c06WInitFact(h, r, 0, gen.ExpelFactHashes(ex)), c06WLive(), c06WTh, ex)
+	case "Isc":
+		vp = gen.FullINITVoteproof(c06WSCFact(h, r), c06WLive(), c06WTh, nil)
+	default:
+		panic("unknown voteproof kind " + kind)
+	}
+
+	c06WVps[k] = vp
+
+	return vp
+}
+
+// c06WVPOf: the world's voteproof that creates position p.
+func c06WVPOf(p c06Pos) base.Voteproof {
+	switch {
+	case p.St == base.StageACCEPT && p.Maj:
+		return c06WVP("Amaj", p.H, p.R)
+	case p.St == base.StageACCEPT:
+		return c06WVP("Adraw", p.H, p.R)
+	case p.SC:
+		return c06WVP("Isc", p.H, p.R)
+	case p.Maj:
+		return c06WVP("Imaj", p.H, p.R)
+	default:
+		return c06WVP("Idraw", p.H, p.R)
+	}
+}
+
+// c06WBallot builds (cached) the ballot; ok=false when the descriptor is not constructible or the ballot is not valid
+// (launch drops invalid ballots before the ballotbox: they are not part of the input domain).
+func c06WBallot(d c06Ballot) (base.Ballot, bool) {
+	c06WMu.Lock()
+	bl, found := c06WBallots[d]
+	c06WMu.Unlock()
+
+	if found {
+		return bl, bl != nil
+	}
+
+	bl = c06WBuildBallot(d)
+	if bl != nil {
+		if err := bl.IsValid(gen.NetworkID); err != nil {
+			c06WInvalid.Add(1)
+
+			bl = nil
+		}
+	}
+
+	c06WMu.Lock()
+	c06WBallots[d] = bl
+	c06WMu.Unlock()
+
+	return bl, bl != nil
+}
+
+func c06WBuildBallot(d c06Ballot) base.Ballot {
+	if d.H < 2 || d.Node < 0 || d.Node >= c06WN {
+		return nil
+	}
+
+	node := gen.Local(d.Node)
+
+	var prev base.Voteproof
+
+	switch {
+	case d.Kind == "initI" && d.R == 0:
+		return nil
+	case d.Kind == "initI":
+		prev = c06WVP("Idraw", d.H, d.R-1)
+	case d.R == 0:
+		prev = c06WVP("Amaj", d.H-1, 0)
+	default:
+		prev = c06WVP("Adraw", d.H, d.R-1)
+	}
+
+	switch d.Kind {
+	case "init", "initI":
+		return isaac.NewINITBallot(prev, gen.SignINIT(c06WInitFact(d.H, d.R, d.V, nil), node), nil)
+	case "initExpel":
+		ex := c06WExpels(d.H)
+
+		return isaac.NewINITBallot(prev, gen.SignINIT(c06WInitFact(d.H, d.R, d.V, gen.ExpelFactHashes(ex)), node), ex)
+	case "sc":
+		if d.V != 0 {
+			return nil
+		}
+
+		return isaac.NewINITBallot(c06WVP("Iexpel", d.H, d.R), gen.SignINIT(c06WSCFact(d.H, d.R), node), nil)
+	case "accept":
+		return isaac.NewACCEPTBallot(c06WVP("Imaj", d.H, d.R).(base.INITVoteproof), gen.SignACCEPT(c06WAcceptFact(d.H, d.R, d.V, nil), node), nil)
+	case "acceptExpel":
+		ex := c06WExpels(d.H)
+
+		return isaac.NewACCEPTBallot(c06WVP("Iexpel", d.H, d.R).(base.INITVoteproof), gen.SignACCEPT(c06WAcceptFact(d.H, d.R, d.V, gen.ExpelFactHashes(ex)), node), ex)
+	default:
+		return nil
+	}
+}
+
+// c06Op is one step of a history: a single ballot, a quorum of one fact (the three live nodes vote it, one after the
+// other), a split (every node votes another fact: a draw), Count(), or SetLastPointFromVoteproof (what launch does
+// once with the stored last voteproof).
+type c06Op struct {
+	Op  string // vote, quorum, split, count, setvp
+	B   c06Ballot
+	Set c06Pos
+}
+
+func (o c06Op) String() string {
+	switch o.Op {
+	case "vote":
+		return o.B.String()
+	case "quorum":
+		return fmt.Sprintf("quorum:%s(%d,%d)", o.B.Kind, o.B.H, o.B.R)
+	case "split":
+		return fmt.Sprintf("split:%s(%d,%d)", o.B.Kind, o.B.H, o.B.R)
+	case "setvp":
+		return "set:" + o.Set.String()
+	default:
+		return o.Op
+	}
+}
+
+type c06World struct {
+	t     ev.TB
+	r     *ev.Rec
+	box   *isaacstates.Ballotbox
+	baseG int
+	hist  []string
+	run   map[c06Pos]struct{} // positions taken since the last allowed backward move
+	taken map[c06Pos]struct{}
+	evs   uint
+	votes int
+}
+
+var c06Worlds, c06WVotes atomic.Int64
+
+func c06NewWorld(t ev.TB, r *ev.Rec) *c06World {
+	c06Worlds.Add(1)
+
+	suf := gen.Suffrage(c06WLocals())
+
+	w := &c06World{t: t, r: r, run: map[c06Pos]struct{}{}, taken: map[c06Pos]struct{}{}}
+	w.box = isaacstates.NewBallotbox(gen.Local(0).Address(),
+		func() base.Threshold { return c06WTh },
+		func(base.Height) (base.Suffrage, bool, error) { return suf, true, nil },
+	)
+	// an INIT draw with a pending expel is held at the first count and given out at the next one, whatever the clock says
+	w.box.SetCountAfter(0)
+	w.baseG = runtime.NumGoroutine()
+
+	return w
+}
+
+func (w *c06World) history() string { return strings.Join(w.hist, " ; ") }
+
+// settle waits until the goroutines the box started for the last call (the deferred counting of Vote, the new-ballot
+// callback) are gone, so that the position is read at a quiescent point and every step sees at most the moves of its
+// own call. A wait that does not end is a harness problem (inconclusive), never a verdict.
+func (w *c06World) settle() {
+	var deadline time.Time
+
+	for i := 0; ; i++ {
+		if runtime.NumGoroutine() <= w.baseG {
+			return
+		}
+
+		switch {
+		case i < 200:
+			runtime.Gosched()
+		case i == 200:
+			deadline = time.Now().Add(c06WSettle)
+
+			fallthrough
+		default:
+			if time.Now().After(deadline) {
+				w.t.Fatalf("harness precondition: the goroutines of Ballotbox.Vote did not finish within %v after [%s] (%d goroutines, %d at the start)",
+					c06WSettle, w.history(), runtime.NumGoroutine(), w.baseG)
+			}
+
+			time.Sleep(20 * time.Microsecond)
+		}
+	}
+}
+
+// judge reads the position after a settled step and compares the move with the statement.
+func (w *c06World) judge(prev c06Pos, step string, counted bool) {
+	// voteproofs the box handed out during the step: none for a height below the position the step started from
+	for {
+		var vp base.Voteproof
+
+		select {
+		case vp = <-w.box.Voteproof():
+		default:
+		}
+
+		if vp == nil {
+			break
+		}
+
+		if !prev.Zero && vp.Point().Height().Int64() < prev.H {
+			w.r.Violation(w.t, "ballotbox-voteproof-lower-height", "Ballotbox after [%s] + %s handed out voteproof %v while the position was %v", w.history(), step, c06PosOfVoteproof(vp), prev)
+		}
+	}
+
+	after := c06PosOfLastPoint(w.box.LastPoint())
+	if after == prev {
+		return
+	}
+
+	if counted {
+		w.evs |= c06EvCounted
+	}
+
+	if ok, why := c06Allowed(prev, after, true); !ok {
+		w.r.Violation(w.t, "ballotbox-counted-"+why, "Ballotbox after [%s] + %s: position moved from %v to %v (%s)", w.history(), step, prev, after, why)
+	}
+
+	cl := c06ClassifyAccepted(prev, after)
+	w.evs |= cl
+
+	if cl&c06EvBackward != 0 {
+		clear(w.run)
+	} else if _, found := w.run[after]; found {
+		w.r.Violation(w.t, "ballotbox-position-taken-twice", "Ballotbox after [%s] + %s: position %v taken twice with no suffrage-confirm move in between", w.history(), step, after)
+	} else if _, found := w.taken[after]; found {
+		w.evs |= c06EvRetakeAfterBackward
+	}
+
+	w.run[after] = struct{}{}
+	w.taken[after] = struct{}{}
+}
+
+func (w *c06World) vote(d c06Ballot) {
+	bl, ok := c06WBallot(d)
+	if !ok {
+		return
+	}
+
+	prev := c06PosOfLastPoint(w.box.LastPoint())
+	cand := d.pos()
+
+	voted, err := w.box.Vote(bl)
+	if err != nil {
+		w.t.Fatalf("harness precondition: Vote(%v) after [%s]: %v", d, w.history(), err)
+	}
+
+	w.votes++
+	w.settle()
+
+	switch {
+	case voted:
+		// the ballot gate, judged against the position the ballot met
+		if ok, why := c06Allowed(prev, cand, false); !ok {
+			w.r.Violation(w.t, "ballotbox-vote-"+why, "Ballotbox.Vote accepted ballot %v while the position is %v after [%s] (%s)", d, prev, w.history(), why)
+		}
+
+		w.evs |= c06EvBallotAccepted
+
+		if !prev.Zero && cand.H == prev.H && c06CmpSP(cand, prev) < 0 {
+			w.evs |= c06EvEarlierSCBallot
+		}
+	case !prev.Zero && cand.H < prev.H:
+		w.evs |= c06EvLowerRejected
+	}
+
+	w.judge(prev, "Vote("+d.String()+")", true)
+	w.hist = append(w.hist, d.String())
+}
+
+func (w *c06World) apply(o c06Op) {
+	switch o.Op {
+	case "vote":
+		w.vote(o.B)
+	case "quorum":
+		for i := 0; i < c06WExpel; i++ {
+			b := o.B
+			b.Node = i
+			w.vote(b)
+		}
+	case "split":
+		for i := 0; i < c06WN; i++ {
+			b := o.B
+			b.Node, b.V = i, 100+i
+			w.vote(b)
+		}
+	case "count":
+		prev := c06PosOfLastPoint(w.box.LastPoint())
+		_ = w.box.Count()
+		w.settle()
+		w.judge(prev, "Count()", true)
+		w.hist = append(w.hist, "count")
+	case "setvp":
+		prev := c06PosOfLastPoint(w.box.LastPoint())
+		ret := w.box.SetLastPointFromVoteproof(c06WVPOf(o.Set))
+		after := c06PosOfLastPoint(w.box.LastPoint())
+
+		if !ret && after != prev {
+			w.r.Violation(w.t, "ballotbox-rejected-but-moved", "Ballotbox.SetLastPointFromVoteproof(%v) after [%s] returned false but the position moved from %v to %v", o.Set, w.history(), prev, after)
+		}
+
+		if after == prev && !prev.Zero && o.Set.H < prev.H {
+			w.evs |= c06EvLowerRejected
+		}
+
+		w.judge(prev, "SetLastPointFromVoteproof("+o.Set.String()+")", false)
+		w.hist = append(w.hist, o.String())
+	default:
+		w.t.Fatalf("unknown op %q", o.Op)
+	}
+}
+
+func (w *c06World) done() { c06WVotes.Add(int64(w.votes)) }
+
+// c06WorldOps: the alphabet of the exhaustive part at one height. full: single ballots of every kind (two fact variants
+// of init / accept) by node 0 and node 1, quorums of every kind, splits, Count. Not full: single ballots by node 0 of
+// the canonical facts, quorums of init / sc / accept, splits, Count.
+func c06WorldOps(h int64, rounds []uint64, full bool) []c06Op {
+	type kv struct {
+		kind string
+		v    int
+	}
+
+	singles := []kv{{"init", 0}, {"initExpel", 0}, {"sc", 0}, {"accept", 0}, {"acceptExpel", 0}}
+	quorums := []string{"init", "sc", "accept"}
+	nodes := 1
+
+	if full {
+		singles = []kv{{"init", 0}, {"init", 1}, {"initExpel", 0}, {"sc", 0}, {"accept", 0}, {"accept", 1}, {"acceptExpel", 0}}
+		quorums = []string{"init", "initExpel", "sc", "accept", "acceptExpel"}
+		nodes = 2
+	}
+
+	var ops []c06Op
+
+	for _, rd := range rounds {
+		for _, k := range singles {
+			for node := 0; node < nodes; node++ {
+				ops = append(ops, c06Op{Op: "vote", B: c06Ballot{Kind: k.kind, H: h, R: rd, V: k.v, Node: node}})
+			}
+		}
+
+		for _, kind := range quorums {
+			ops = append(ops, c06Op{Op: "quorum", B: c06Ballot{Kind: kind, H: h, R: rd}})
+		}
+
+		for _, kind := range []string{"init", "accept"} {
+			ops = append(ops, c06Op{Op: "split", B: c06Ballot{Kind: kind, H: h, R: rd}})
+		}
+	}
+
+	return append(ops, c06Op{Op: "count"})
+}
+
+// c06WorldAll: from every start (no position, or one SetLastPointFromVoteproof) every sequence of depth ops.
+func c06WorldAll(t ev.TB, r *ev.Rec, starts []c06Pos, ops []c06Op, depth int, mine func(int) bool, cnt *c06Counters) {
+	idx := make([]int, depth)
+	n := 0
+
+	for _, start := range starts {
+		for first := range ops {
+			n++
+
+			if !mine(n) {
+				continue
+			}
+
+			for i := range idx {
+				idx[i] = 0
+			}
+
+			idx[0] = first
+
+			for {
+				w := c06NewWorld(t, r)
+
+				if !start.Zero {
+					w.apply(c06Op{Op: "setvp", Set: start})
+				}
+
+				for i := range idx {
+					w.apply(ops[idx[i]])
+				}
+
+				w.done()
+				cnt.add(w.evs)
+
+				if w.evs&c06EvEarlierSCBallot != 0 && w.evs&c06EvCounted != 0 && len(cnt.sample) < 2 {
+					cnt.sample = append(cnt.sample, map[string]any{"holder": "ballotbox(real ballots)", "history": w.history(), "position": c06PosOfLastPoint(w.box.LastPoint()).String()})
+				}
+
+				k := depth - 1
+				for k >= 1 {
+					idx[k]++
+					if idx[k] < len(ops) {
+						break
+					}
+
+					idx[k] = 0
+					k--
+				}
+
+				if k < 1 {
+					break
+				}
+			}
+		}
+	}
+}
+
+// c06DrawOp draws the next step of a generated history relative to the box's current position.
+func c06DrawOp(rt *rapid.T, cur c06Pos, minH, maxH int64, maxR uint64) c06Op {
+	if cur.Zero {
+		cur = c06Pos{H: minH + 1, St: base.StageINIT}
+	}
+
+	h, rd := cur.H, cur.R
+
+	switch rapid.IntRange(0, 11).Draw(rt, "at") {
+	case 0, 1, 2, 3: // the current point
+	case 4, 5: // the next round
+		rd++
+	case 6, 7, 8: // an earlier (or the same) round
+		rd = rapid.Uint64Range(0, cur.R).Draw(rt, "earlier")
+	case 9: // the next height
+		h, rd = h+1, 0
+	case 10: // a lower height
+		h, rd = h-1, rapid.Uint64Range(0, maxR).Draw(rt, "r")
+	default:
+		h, rd = rapid.Int64Range(minH, maxH).Draw(rt, "h"), rapid.Uint64Range(0, maxR).Draw(rt, "r")
+	}
+
+	if h < minH {
+		h = minH
+	}
+
+	if h > maxH {
+		h = maxH
+	}
+
+	if rd > maxR {
+		rd = maxR
+	}
+
+	switch k := rapid.IntRange(0, 19).Draw(rt, "op"); {
+	case k < 10:
+		b := c06Ballot{
+			Kind: rapid.SampledFrom([]string{"init", "init", "initI", "initExpel", "sc", "sc", "accept", "accept", "acceptExpel"}).Draw(rt, "kind"),
+			H:    h, R: rd, Node: rapid.IntRange(0, c06WN-1).Draw(rt, "node"),
+		}
+
+		if b.Kind != "sc" && rapid.IntRange(0, 3).Draw(rt, "conflict") == 0 {
+			b.V = rapid.IntRange(1, 2).Draw(rt, "v")
+		}
+
+		return c06Op{Op: "vote", B: b}
+	case k < 14:
+		return c06Op{Op: "quorum", B: c06Ballot{Kind: rapid.SampledFrom([]string{"init", "initExpel", "sc", "accept", "acceptExpel"}).Draw(rt, "kind"), H: h, R: rd}}
+	case k < 17:
+		return c06Op{Op: "split", B: c06Ballot{Kind: rapid.SampledFrom([]string{"init", "accept"}).Draw(rt, "kind"), H: h, R: rd}}
+	case k < 18:
+		return c06Op{Op: "count"}
+	default:
+		p := c06Pos{H: h, R: rd, St: rapid.SampledFrom([]base.Stage{base.StageINIT, base.StageACCEPT}).Draw(rt, "st"), Maj: rapid.Bool().Draw(rt, "maj")}
+		if p.St == base.StageINIT && p.Maj {
+			p.SC = rapid.Bool().Draw(rt, "sc")
+		}
+
+		return c06Op{Op: "setvp", Set: p}
+	}
+}
+
 // ---- rapid: long sequences over a larger domain through both holders
 
 func c06DrawCand(rt *rapid.T, cur c06Pos, maxH int64, maxR uint64) c06Pos {
@@ -880,6 +1470,10 @@ func TestC06(t *testing.T) {
 		"LastVoteproofsHandler.Set returning true for a voteproof that IsNew refused, while Last().Cap() stays put (fillMissing), is not a move of the position; Set returning true for a voteproof that IsNew accepted is an accepted update and must become Last().Cap()",
 		"ForceSetLast (sync/handover reset) is outside the statement",
 	)
+
+	// every Ballotbox allocates a 1 MiB voteproof channel; with the small live heap of this test the collector would run
+	// every few boxes. Speed only.
+	defer debug.SetGCPercent(debug.SetGCPercent(1600))
 
 	heights := []int64{1, 2, 3}
 	rounds := []uint64{0, 1, 2}
@@ -1090,6 +1684,38 @@ func TestC06(t *testing.T) {
 		return
 	}
 
+	// ---- F. ballotbox driven by real ballots: the position is moved by the box's own counting
+	t.Run("F-ballotbox-counting", func(t *testing.T) {
+		var cnt c06Counters
+
+		const h = 33
+
+		frounds := []uint64{0, 1}
+		if r.Thorough() {
+			frounds = []uint64{0, 1, 2}
+		}
+
+		// starts: no position; the ACCEPT majority of the previous height (what launch sets from the stored last
+		// voteproof); every position of the height
+		starts := append([]c06Pos{{Zero: true}, {H: h - 1, St: base.StageACCEPT, Maj: true}}, c06Positions([]int64{h}, frounds)...)
+		// the full alphabet one step shorter than the reduced one
+		c06WorldAll(t, r, starts, c06WorldOps(h, frounds, true), r.N(1, 2), r.Mine, &cnt)
+		c06WorldAll(t, r, starts, c06WorldOps(h, frounds, false), r.N(2, 3), r.Mine, &cnt)
+
+		cnt.flush(r, "F")
+		r.Extra("ballotbox_worlds", c06Worlds.Load())
+		r.Extra("ballotbox_votes", c06WVotes.Load())
+		r.Extra("ballots_invalid_skipped", c06WInvalid.Load())
+
+		for _, s := range cnt.sample {
+			r.Sample(s)
+		}
+	})
+
+	if t.Failed() {
+		return
+	}
+
 	// ---- D. rapid sequences through both holders
 	r.Checks(1500, 200000)
 	r.ShrinkTime(20 * time.Second)
@@ -1159,4 +1785,48 @@ func TestC06(t *testing.T) {
 			r.Sample(map[string]any{"holder": "both(rapid)", "ops(0,1,3=set 2=ballot)+updates": desc.String()})
 		}
 	})
+
+	if t.Failed() {
+		return
+	}
+
+	// ---- G. rapid histories of real ballots through one Ballotbox: votes of every kind at the current, next, earlier
+	// rounds and other heights, quorums, draws, Count, SetLastPointFromVoteproof
+	r.Checks(300, 40000)
+	rapid.Check(t, func(rt *rapid.T) {
+		const minH, maxH, maxR = 32, 35, 3
+
+		w := c06NewWorld(rt, r)
+
+		if rapid.IntRange(0, 3).Draw(rt, "start") != 0 {
+			w.apply(c06Op{Op: "setvp", Set: c06Pos{H: minH, St: base.StageACCEPT, Maj: true}})
+		}
+
+		n := rapid.IntRange(5, 60).Draw(rt, "n")
+
+		for i := 0; i < n; i++ {
+			w.apply(c06DrawOp(rt, c06PosOfLastPoint(w.box.LastPoint()), minH, maxH, maxR))
+		}
+
+		w.done()
+
+		var classes []string
+
+		for i := range c06EvNames {
+			if w.evs&(1<<i) != 0 {
+				classes = append(classes, "G:"+c06EvNames[i])
+			}
+		}
+
+		nontrivial := c06Nontrivial(w.evs)
+		r.Case("G|"+w.history(), nontrivial, append(classes, "part:G")...)
+
+		if nontrivial && w.evs&c06EvBackward != 0 && w.evs&c06EvCounted != 0 && r.WantSample() {
+			r.Sample(map[string]any{"holder": "ballotbox(real ballots, rapid)", "history": w.history()})
+		}
+	})
+
+	r.Extra("ballotbox_worlds", c06Worlds.Load())
+	r.Extra("ballotbox_votes", c06WVotes.Load())
+	r.Extra("ballots_invalid_skipped", c06WInvalid.Load())
 }
